@@ -26,15 +26,18 @@ HEADER = ("Require Import SqlV.Base SqlV.PrecSpec SqlV.Pratt SqlV.SetOps SqlV.Pr
           "SqlV.QueryCoreProofs SqlVGen.PrecTables SqlVGen.QueryTables.\n")
 QKW = {"SELECT": "KSelect", "WHERE": "KWhere", "GROUP": "KGroup", "BY": "KBy", "HAVING": "KHaving", "ORDER": "KOrder",
        "ASC": "KAsc", "DESC": "KDesc", "LIMIT": "KLimit", "OFFSET": "KOffset", "AS": "KAs", "UNION": "KUnion",
-       "EXCEPT": "KExcept", "INTERSECT": "KIntersect"}
+       "EXCEPT": "KExcept", "INTERSECT": "KIntersect", "JOIN": "KJoin", "INNER": "KInner", "LEFT": "KLeft",
+       "RIGHT": "KRight", "FULL": "KFull", "OUTER": "KOuter", "CROSS": "KCross", "NATURAL": "KNatural", "ON": "KOn",
+       "USING": "KUsing", "WITH": "KWith", "RECURSIVE": "KRecursive"}
 WORD_OPS = {"AND": 40, "OR": 41, "XOR": 42}
 FLAGS = ["limit_comma", "limit_by", "trailing", "proj_trailing", "wild_except", "wild_ilike", "select_as", "unnest_table",
-         "hyphen_table", "group_by_expr", "paren_tables"]
+         "hyphen_table", "group_by_expr", "paren_tables", "group_with"]
 # words used as aliases / table names: reserved and non-reserved keywords of the model's alphabet
 ALIAS_WORDS = ["SELECT", "WHERE", "GROUP", "BY", "HAVING", "ORDER", "ASC", "DESC", "LIMIT", "OFFSET", "AS", "UNION",
                "EXCEPT", "INTERSECT", "FROM", "DISTINCT", "ALL", "NOT", "IS", "NULL", "TRUE", "IN", "BETWEEN", "LIKE",
                "ILIKE", "TO", "ESCAPE", "AT", "TIME", "ZONE", "ANY", "SOME", "UNNEST", "DIV", "AND", "OR", "INT", "TEXT",
-               "DATE", "x7"]
+               "DATE", "x7", "JOIN", "INNER", "LEFT", "RIGHT", "FULL", "OUTER", "CROSS", "NATURAL", "ON", "USING", "WITH",
+               "RECURSIVE"]
 
 
 def word_term(name):
@@ -66,6 +69,7 @@ def flags_from(entry):
         "hyphen_table": ok("hyphen_table"),
         "group_by_expr": ok("group_by_expr"),
         "paren_tables": ok("paren_tables"),
+        "group_with": ok("group_with"),
     }
 
 
@@ -163,10 +167,43 @@ class Gen:
             return "*"
         return self.expr() + self.alias()
 
-    def tref(self, depth):
-        if depth > 0 and self.rng.random() < 0.3:
+    JOIN_KW = ["JOIN", "INNER JOIN", "LEFT JOIN", "LEFT OUTER JOIN", "RIGHT JOIN", "RIGHT OUTER JOIN", "FULL JOIN",
+               "FULL OUTER JOIN"]
+
+    def factor(self, depth, nest):
+        r = self.rng.random()
+        if depth > 0 and r < 0.25:
             return "(" + self.query(depth - 1) + ")" + self.alias()
+        if nest > 0 and r < 0.4:
+            return "(" + self.twj(depth, nest - 1, self.rng.choice([0, 1, 1, 1, 2])) + ")" + self.alias()
         return self.word(0.05) + self.alias()
+
+    def join(self, depth, nest):
+        rng = self.rng
+        if rng.random() < 0.12:
+            return " CROSS JOIN " + self.factor(depth, nest)
+        kw, c = rng.choice(self.JOIN_KW), rng.random()
+        if c < 0.18:
+            return " NATURAL " + kw + " " + self.factor(depth, nest)
+        s = " " + kw + " " + self.factor(depth, nest)
+        if c < 0.55:
+            s += " ON " + self.expr()
+        elif c < 0.8:
+            s += " USING (" + self.lst(lambda: self.word(0.1)) + ")"
+        return s
+
+    def twj(self, depth, nest=2, joins=None):
+        n = self.rng.choice([0, 0, 0, 1, 1, 2, 3]) if joins is None else joins
+        return self.factor(depth, nest) + "".join(self.join(depth, nest) for _ in range(n))
+
+    def tref(self, depth):
+        return self.twj(depth)
+
+    def cte(self, depth):
+        s = self.word(0.1)
+        if self.rng.random() < 0.4:
+            s += " (" + self.lst(lambda: self.word(0.1)) + ")"
+        return s + " AS (" + self.query(depth) + ")"
 
     def select(self, depth, present=None):
         rng = self.rng
@@ -212,7 +249,11 @@ class Gen:
         return s
 
     def query(self, depth):
-        return self.body(depth) + self.tail()
+        s = ""
+        if depth > 0 and self.rng.random() < 0.25:
+            s = "WITH " + ("RECURSIVE " if self.rng.random() < 0.3 else "")
+            s += ", ".join(self.cte(depth - 1) for _ in range(self.rng.choice([1, 1, 2]))) + " "
+        return s + self.body(depth) + self.tail()
 
 
 def mutate(rng, sql):
@@ -229,7 +270,8 @@ def mutate(rng, sql):
     elif r < 0.85:
         ts.append(rng.choice([")", ";", "x9", "BY x1", ", x2", "ORDER x1", "GROUP x1", "LIMIT 1", "OFFSET 2 LIMIT 1 LIMIT 2"]))
     else:
-        ts.insert(i, rng.choice(["(", ")", "AS", "ALL", "DISTINCT", "FROM", "SELECT"]))
+        ts.insert(i, rng.choice(["(", ")", "AS", "ALL", "DISTINCT", "FROM", "SELECT", "JOIN", "ON", "NATURAL", "LEFT", "OUTER",
+                                 "CROSS", "USING", "WITH", "RECURSIVE", "INNER"]))
     return " ".join(ts)
 
 
@@ -240,8 +282,11 @@ def query_cases(run, T):
     cases = []
     add = lambda d, sql, stream: cases.append({"dialect": d, "sql": sql, "stream": stream})
     sel_keys, tail_keys = ["from", "where", "group", "having"], ["order", "limit", "offset"]
-    for d in C04.DIALECTS:
+    for di, d in enumerate(C04.DIALECTS):
         g = Gen(rng, pool[d])
+        # quick tier: the two big directed products are split three ways over the dialects (every
+        # combination still runs in four or five dialects); thorough: all of them everywhere
+        part = (lambda i: True) if thorough else (lambda i: (i + di) % 3 == 0)
         # (i) every shape of clause presence / absence
         for m in range(128):
             pres = {k: bool(m >> i & 1) for i, k in enumerate(sel_keys + tail_keys)}
@@ -255,6 +300,56 @@ def query_cases(run, T):
             add(d, "SELECT x1 FROM %s" % w, "alias")
             add(d, "SELECT x1 FROM (SELECT x2) %s" % w, "alias")
             add(d, "SELECT x1 %s, x2" % w, "alias")
+        # (ii-b) the alias rule around joins and CTE names / column lists: every word in every position
+        for wi, w in enumerate(ALIAS_WORDS):
+            for ti, t in enumerate(["SELECT x1 FROM x2 %s JOIN x3", "SELECT x1 FROM x2 JOIN x3 %s", "SELECT x1 FROM x2 JOIN x3 AS %s ON x4",
+                      "SELECT x1 FROM x2 JOIN x3 %s ON x4", "SELECT x1 FROM %s JOIN x3", "SELECT x1 FROM x2 LEFT JOIN %s USING (x4)",
+                      "SELECT x1 FROM (%s JOIN x3 ON x4) AS x5", "SELECT x1 FROM (x2 JOIN x3) %s", "SELECT x1 FROM x2 JOIN x3 USING (%s)",
+                      "SELECT x1 FROM x2 JOIN x3 USING (x4, %s)", "WITH %s AS (SELECT x1) SELECT x2", "WITH x1 (%s) AS (SELECT x2) SELECT x3",
+                      "WITH x1 (x2, %s) AS (SELECT x3) SELECT x4", "WITH x1 AS (SELECT x2), %s AS (SELECT x3) SELECT x4",
+                      "WITH RECURSIVE %s (x1) AS (SELECT x2) SELECT x3", "SELECT x1 FROM x2 NATURAL JOIN x3 %s"]):
+                if part(wi + ti):
+                    add(d, t % w, "alias-join")
+        # (ii-c) every join spelling x constraint x alias form, 0-3 joins; 0-2 CTEs with / without column lists
+        JK = ["JOIN", "INNER JOIN", "LEFT JOIN", "LEFT OUTER JOIN", "RIGHT JOIN", "RIGHT OUTER JOIN", "FULL JOIN", "FULL OUTER JOIN",
+              "CROSS JOIN", "LEFT", "INNER", "OUTER JOIN", "LEFT INNER JOIN", "CROSS", "NATURAL", "FULL OUTER", "LEFT SEMI JOIN"]
+        CONS = ["", " ON x5 = x6", " USING (x5)", " USING (x5, x6)", " ON x5 ON x6", " USING x5", " USING ()", " USING (x5,)", " ON"]
+        AL = ["", " AS x7", " x7", " AS LEFT", " ON", " AS x7 (x8)"]
+        for ji, jk in enumerate(JK):
+            for ci, co in enumerate(CONS):
+                for ai, al in enumerate(AL):
+                    if part(ji + ci + ai):
+                        add(d, "SELECT x1 FROM x2%s %s x3%s%s" % (al, jk, al.replace("7", "9"), co), "joins")
+                if part(ji + ci):
+                    add(d, "SELECT x1 FROM x2 NATURAL %s x3%s WHERE x4" % (jk, co), "joins")
+                    add(d, "SELECT x1 FROM x2 %s (SELECT x3) AS x4%s" % (jk, co), "joins")
+                    add(d, "SELECT x1 FROM x2 %s (x3 %s x4%s)%s, x7" % (jk, jk, co, co), "joins")
+                    add(d, "SELECT x1 FROM x2 %s x3%s %s x4%s %s x5%s" % (jk, co, jk, co, jk, co), "joins")
+        for s in ["SELECT x1 FROM (x2 JOIN x3)", "SELECT x1 FROM ((x2 JOIN x3))", "SELECT x1 FROM ((x2 JOIN x3) JOIN x4)", "SELECT x1 FROM (((x2 JOIN x3)))",
+                  "SELECT x1 FROM ((SELECT x2) JOIN x3)", "SELECT x1 FROM ((SELECT x2) AS x4 JOIN x3)", "SELECT x1 FROM ((SELECT x2) x4 JOIN x3)",
+                  "SELECT x1 FROM (((SELECT x2) AS x4 JOIN x3) JOIN x5)", "SELECT x1 FROM ((SELECT x2))", "SELECT x1 FROM ((SELECT x2) AS x3)",
+                  "SELECT x1 FROM (SELECT JOIN x2)", "SELECT x1 FROM (SELECT JOIN x2 ON x3)", "SELECT x1 FROM (WITH JOIN x2)", "SELECT x1 FROM (SELECT NATURAL JOIN x2)",
+                  "SELECT x1 FROM (x2 JOIN x3) AS x4 (x5)", "SELECT x1 FROM (x2 JOIN x3 JOIN x4 ON x5) x6 JOIN x7", "SELECT x1 FROM (x2) JOIN x3",
+                  "SELECT x1 FROM (x2 AS x3) AS x4", "SELECT x1 FROM (x2 JOIN x3", "SELECT x1 FROM x2 JOIN (x3", "SELECT x1 FROM (x2 JOIN x3))",
+                  "SELECT x1 FROM ((x2 JOIN x3) UNION SELECT x4)", "SELECT x1 FROM ((SELECT x2) UNION (SELECT x3))", "SELECT x1 FROM ((SELECT x2) UNION (SELECT x3)) JOIN x4",
+                  "SELECT x1 FROM x2 JOIN x3 ON x4 IS DISTINCT FROM x5 LEFT JOIN x6 ON x7 LIKE x8 ESCAPE 's1'", "SELECT x1 FROM x2 JOIN x3 ON x4, x5 JOIN x6 USING (x7), x8",
+                  "SELECT x1 FROM x2 JOIN x3 ON x4 GROUP BY x5", "SELECT x1 FROM x2 JOIN x3 USING (x4) UNION SELECT x5 FROM x6 NATURAL JOIN x7 ORDER BY x8",
+                  "SELECT x1 FROM x2 WITH (x3)", "SELECT x1 FROM x2 WITH x3", "SELECT x1 FROM x2 AS x3 WITH (x4)", "SELECT x1 FROM x2 WITH", "SELECT x1 GROUP BY x2 WITH x3",
+                  "SELECT x1 GROUP BY x2 WITH", "SELECT x1 ORDER BY x2 WITH x3", "SELECT DISTINCT ON (x1) x2", "SELECT DISTINCT ON x1", "SELECT ON", "SELECT x1 ON x2",
+                  "SELECT x1 FROM x2 JOIN x3 ON x4 JOIN", "SELECT x1 FROM x2 JOIN", "SELECT x1 FROM JOIN", "SELECT x1 FROM x2 JOIN JOIN JOIN x3", "SELECT x1 FROM x2, JOIN x3",
+                  "SELECT x1 FROM x2 JOIN x3, WHERE x4", "SELECT x1 FROM x2 JOIN x3 ON x4, WHERE x5", "SELECT x1 FROM x2 JOIN x3 USING (x4, WHERE)", "SELECT x1 FROM x2 JOIN x3 USING (x4, x5,) WHERE x6",
+                  "WITH x1 AS (SELECT x2) SELECT x3", "WITH x1 AS (SELECT x2), x3 AS (SELECT x4) SELECT x5 FROM x1 JOIN x3 ON x6", "WITH x1 (x2) AS (SELECT x3) SELECT x4",
+                  "WITH x1 (x2, x3) AS (SELECT x4), x5 (x6) AS (SELECT x7) SELECT x8", "WITH RECURSIVE x1 AS (SELECT x2) SELECT x3", "WITH RECURSIVE AS (SELECT x2) SELECT x3",
+                  "WITH RECURSIVE RECURSIVE AS (SELECT x2) SELECT x3", "WITH RECURSIVE RECURSIVE (x1) AS (SELECT x2) SELECT x3", "WITH x1 AS (SELECT x2)", "WITH x1 AS (SELECT x2),",
+                  "WITH x1 AS (SELECT x2), SELECT x3", "WITH x1 AS SELECT x2 SELECT x3", "WITH x1 (x2) (SELECT x3) SELECT x4", "WITH x1 () AS (SELECT x3) SELECT x4",
+                  "WITH x1 (x2,) AS (SELECT x3) SELECT x4", "WITH x1 AS (SELECT x2) FROM x3 SELECT x4", "WITH x1 AS NOT (SELECT x2) SELECT x3", "WITH x1 AS (SELECT x2) (SELECT x3)",
+                  "WITH x1 AS (SELECT x2) (SELECT x3) UNION SELECT x4 ORDER BY x5 LIMIT 1", "(WITH x1 AS (SELECT x2) SELECT x3)", "SELECT x1 FROM (WITH x2 AS (SELECT x3) SELECT x4) AS x5",
+                  "WITH x1 AS (WITH x2 AS (WITH x3 AS (SELECT x4) SELECT x5) SELECT x6) SELECT x7", "WITH x1 AS (SELECT x2) WITH x3 AS (SELECT x4) SELECT x5",
+                  "WITH x1 AS (SELECT x2 UNION SELECT x3 ORDER BY x4 LIMIT 5) SELECT x6 UNION SELECT x7", "WITH x1 AS (SELECT x2) SELECT x3 UNION (WITH x4 AS (SELECT x5) SELECT x6)",
+                  "WITH 's1' AS (SELECT x2) SELECT x3", "WITH x1 ('s1') AS (SELECT x2) SELECT x3", "WITH 1 AS (SELECT x2) SELECT x3", "WITH x1 AS (SELECT x2) x3", "WITH",
+                  "SELECT x1 FROM x2 JOIN x3 USING ('s1')", "SELECT x1 FROM x2 JOIN x3 USING (1)", "SELECT x1 LIMIT ALL BY x2", "SELECT x1 BY x2", "SELECT x1 OFFSET 1 BY x2",
+                  "SELECT x1 LIMIT 1 OFFSET 2 BY x3", "SELECT x1 LIMIT 1, 2 BY x3"]:
+            add(d, s, "directed")
         # (iii) directed: LIMIT / OFFSET orders, quantifiers, parenthesised operands, trailing commas, wildcard options
         for s in ["SELECT x1 LIMIT 1 OFFSET 2", "SELECT x1 OFFSET 2 LIMIT 1", "SELECT x1 LIMIT ALL", "SELECT x1 LIMIT ALL LIMIT 2",
                   "SELECT x1 LIMIT 1, 2", "SELECT x1 LIMIT 1, 2 OFFSET 3", "SELECT x1 OFFSET 1 LIMIT 2, 3", "SELECT x1 LIMIT 1 LIMIT 2",
@@ -372,14 +467,76 @@ class QEnc(C04.Enc):
             self.pos += 1
         return "(IAlias %s %s)" % (e, self.word(n["a"]))
 
-    def q_tref(self, n):
+    def q_factor(self, n):
         if n["k"] == "table":
             name = self.word(n["name"])
             return "(TTable %s %s)" % (name, self.alias(n["alias"]))
         self.eat("p", "LParen")
-        q = self.q_query(n["q"])
+        if n["k"] == "derived":
+            x = self.q_query(n["q"])
+            self.eat("p", "RParen")
+            return "(TDerived %s %s)" % (x, self.alias(n["alias"]))
+        x = self.q_twj(n["t"])
         self.eat("p", "RParen")
-        return "(TDerived %s %s)" % (q, self.alias(n["alias"]))
+        return "(TNested %s %s)" % (x, self.alias(n["alias"]))
+
+    def cols(self, l):
+        self.eat("p", "LParen")
+        c = self.commas(l, self.word)
+        if self.peek() == ["p", "Comma"]:       # a trailing comma
+            self.pos += 1
+        self.eat("p", "RParen")
+        return c
+
+    def q_join(self, j):
+        kind, c = j["kind"], j["c"]
+        if kind == "JCross":
+            self.eatq("CROSS"); self.eatq("JOIN")
+            return "(Join JCross %s)" % self.q_factor(j["rel"])
+        if c["k"] == "natural":
+            self.eatq("NATURAL")
+        if kind == "JInner":
+            if self.peek() == ["other", "INNER"]:
+                self.pos += 1
+        else:
+            self.eatq({"JLeft": "LEFT", "JRight": "RIGHT", "JFull": "FULL"}[kind])
+            if self.peek() == ["other", "OUTER"]:
+                self.pos += 1
+        self.eatq("JOIN")
+        rel = self.q_factor(j["rel"])
+        if c["k"] == "on":
+            self.eatq("ON")
+            cc = "(JOn %s)" % self.conv(c["e"])
+        elif c["k"] == "using":
+            self.eatq("USING")
+            cc = "(JUsing %s)" % self.cols(c["cols"])
+        else:
+            cc = {"natural": "JNatural", "none": "JNone"}[c["k"]]
+        return "(Join (JOp %s %s) %s)" % (kind, cc, rel)
+
+    def q_twj(self, n):
+        rel = self.q_factor(n["rel"])
+        return "(Twj %s [%s])" % (rel, "; ".join(self.q_join(j) for j in n["joins"]))
+
+    def q_cte(self, c):
+        name = self.word(c["name"])
+        cols = self.cols(c["cols"]) if c["cols"] else "[]"
+        self.eatq("AS")
+        self.eat("p", "LParen")
+        q = self.q_query(c["q"])
+        self.eat("p", "RParen")
+        return "(Cte %s %s %s)" % (name, cols, q)
+
+    def q_with(self, w):
+        if w is None:
+            return "None"
+        self.eatq("WITH")
+        if w["recursive"]:
+            self.eatq("RECURSIVE")
+        ctes = self.commas(w["ctes"], self.q_cte)
+        if self.peek() == ["p", "Comma"]:       # a trailing comma of the CTE list
+            self.pos += 1
+        return "(Some (With %s %s))" % (coq_bool(w["recursive"]), ctes)
 
     def q_order(self, o):
         e = self.conv(o["e"])
@@ -412,7 +569,9 @@ class QEnc(C04.Enc):
         fr = "[]"
         if n["from"]:
             self.eat("kw", "FROM")
-            fr = self.commas(n["from"], self.q_tref)
+            fr = self.commas(n["from"], self.q_twj)
+            if self.peek() == ["p", "Comma"]:   # a trailing comma of the FROM list
+                self.pos += 1
         wh = self.opt(n["where"], "WHERE")
         gb = "[]"
         if n["group_by"]:
@@ -422,6 +581,7 @@ class QEnc(C04.Enc):
         return "(BSelect %s %s %s %s %s %s)" % (coq_bool(n["distinct"]), items, fr, wh, gb, hv)
 
     def q_query(self, n):
+        w = self.q_with(n["with"])
         b = self.q_body(n["body"])
         ob = "[]"
         if n["order_by"]:
@@ -452,7 +612,7 @@ class QEnc(C04.Enc):
                 off = self.opt(n["offset"])
         if (lim == "None") != (n["limit"] is None) or (off == "None") != (n["offset"] is None):
             raise ValueError("alignment: LIMIT / OFFSET")
-        return "(Query %s %s %s %s)" % (b, ob, lim, off)
+        return "(Query %s %s %s %s %s)" % (w, b, ob, lim, off)
 
 
 def encode_case(T, c, r):
